@@ -32,15 +32,18 @@ VARIABLES pops,     \* populations handed to the code
           qm,       \* reverse committors
           fu, fd,   \* reactive fluxes on the two off-diagonals
           nu, nd,   \* net fluxes
+          dens,     \* populations x forward x reverse committor
+          tot,      \* their sum
           rp        \* reactive populations (None: 0/0, no state has 0 < q+ < 1)
 
-fvars == <<pops, qm, fu, fd, nu, nd, rp>>
+fvars == <<pops, qm, fu, fd, nu, nd, dens, tot, rp>>
 vars == <<lvars, fvars>>
 
 PScale == BR(cs.pscale[1], cs.pscale[2])
 EdgeIdx == 1..(N - 1)
 
-FInit == LInit /\ pops = None /\ qm = None /\ fu = None /\ fd = None /\ nu = None /\ nd = None /\ rp = None
+FInit == LInit /\ pops = None /\ qm = None /\ fu = None /\ fd = None /\ nu = None /\ nd = None
+               /\ dens = None /\ tot = None /\ rp = None
 
 (* _get_data_from_tprob: populations, forward committors (q), reverse = 1 - forward *)
 GetData ==
@@ -48,18 +51,19 @@ GetData ==
   /\ pops' = V([i \in Idx |-> BRMul(PScale, Pi(i))])
   /\ qm' = V([i \in Idx |-> BRCompl(q[i])])
   /\ pc' = "f_flux"
-  /\ UNCHANGED <<lvars_but_pc, fu, fd, nu, nd, rp>>
+  /\ UNCHANGED <<lvars_but_pc, fu, fd, nu, nd, dens, tot, rp>>
 
-(* flux from i to j for given populations p: T[i][j] scaled by (p q-)[i], then by q+[j] *)
-FluxOf(p, i, j) == BRMul(BRMul(Tr(i, j), BRMul(p[i], qm[i])), q[j])
+(* flux from i to j for populations p(.): T[i][j] scaled by (p q-)[i], then by q+[j] *)
+FluxOf(p(_), i, j) == BRMul(BRMul(Tr(i, j), BRMul(p(i), qm[i])), q[j])
+Given(i) == pops[i]
 
 (* reactive_fluxes: tprob * (populations * reverse)[:, None] * forward, diagonal zeroed *)
 Fluxes ==
   /\ pc = "f_flux"
-  /\ fu' = V([i \in EdgeIdx |-> FluxOf(pops, i, i + 1)])
-  /\ fd' = V([i \in EdgeIdx |-> FluxOf(pops, i + 1, i)])
+  /\ fu' = V([i \in EdgeIdx |-> FluxOf(Given, i, i + 1)])
+  /\ fd' = V([i \in EdgeIdx |-> FluxOf(Given, i + 1, i)])
   /\ pc' = "f_net"
-  /\ UNCHANGED <<lvars_but_pc, pops, qm, nu, nd, rp>>
+  /\ UNCHANGED <<lvars_but_pc, pops, qm, nu, nd, dens, tot, rp>>
 
 PosPart(x, y) == IF BRLt(y, x) THEN BRSub(x, y) ELSE BRZero       \* max(x - y, 0)
 
@@ -69,7 +73,7 @@ NetPositivePart ==
   /\ nu' = V([i \in EdgeIdx |-> PosPart(fu[i], fd[i])])
   /\ nd' = V([i \in EdgeIdx |-> PosPart(fd[i], fu[i])])
   /\ pc' = "f_pops"
-  /\ UNCHANGED <<lvars_but_pc, pops, qm, fu, fd, rp>>
+  /\ UNCHANGED <<lvars_but_pc, pops, qm, fu, fd, dens, tot, rp>>
 
 (* sum of the rationals x[i], i in lo..hi; entries between two consecutive absorbing states   *)
 (* share their denominator, so the sum is formed gap by gap (BRAdd adds numerators there) and *)
@@ -83,18 +87,31 @@ SumOverStates(x) ==
   IN FoldLeft(LAMBDA acc, y : BRAdd(acc, y), BRZero, gs)
 (* (absorbing states have q+ q- = 0 and are left out of the sum) *)
 
-Densities(p) == V([i \in Idx |-> BRMul(p[i], BRMul(q[i], qm[i]))])
+DensityOf(p(_), i) == BRMul(p(i), BRMul(q[i], qm[i]))
 
-(* reactive_populations: densities / sum(densities) *)
-ReactivePops ==
+(* reactive_populations: densities = populations * forward * reverse ... *)
+Densities ==
   /\ pc = "f_pops"
-  /\ LET dens == Densities(pops)
-         tot  == SumOverStates(dens)
-     IN rp' = IF BRIsZero(tot) THEN None ELSE V([i \in Idx |-> BRDiv(dens[i], tot)])
-  /\ pc' = "fdone"
-  /\ UNCHANGED <<lvars_but_pc, pops, qm, fu, fd, nu, nd>>
+  /\ dens' = V([i \in Idx |-> DensityOf(Given, i)])
+  /\ pc' = "f_total"
+  /\ UNCHANGED <<lvars_but_pc, pops, qm, fu, fd, nu, nd, tot, rp>>
 
-FNext == (LNext /\ UNCHANGED fvars) \/ GetData \/ Fluxes \/ NetPositivePart \/ ReactivePops
+(* ... np.sum(densities) ... *)
+TotalDensity ==
+  /\ pc = "f_total"
+  /\ tot' = SumOverStates(dens)
+  /\ pc' = "f_norm"
+  /\ UNCHANGED <<lvars_but_pc, pops, qm, fu, fd, nu, nd, dens, rp>>
+
+(* ... densities / sum *)
+ReactivePops ==
+  /\ pc = "f_norm"
+  /\ rp' = IF BRIsZero(tot) THEN None ELSE V([i \in Idx |-> BRDiv(dens[i], tot)])
+  /\ pc' = "fdone"
+  /\ UNCHANGED <<lvars_but_pc, pops, qm, fu, fd, nu, nd, dens, tot>>
+
+FNext == (LNext /\ UNCHANGED fvars) \/ GetData \/ Fluxes \/ NetPositivePart
+         \/ Densities \/ TotalDensity \/ ReactivePops
 FSpec == FInit /\ [][FNext]_vars
 
 (* ---- properties ---------------------------------------------------------------------- *)
@@ -137,16 +154,16 @@ PopsProbability == (pc = "fdone" /\ rp # None) =>
 PopsDefinedIffReactive == pc = "fdone" =>
   ((rp # None) <=> (\E i \in Idx : ~BRIsZero(q[i]) /\ ~BRIsZero(qm[i])))
 
-(* homogeneity in the populations: undoing the scale gives the fluxes of the stationary probabilities *)
+(* homogeneity in the populations: every flux, net flux and density is PScale times the one of the stationary  *)
+(* probabilities (degree one); the reactive populations are densities / their sum, so the scale cancels (degree  *)
+(* zero): rp = PScale d1 / sum(PScale d1) = d1 / sum(d1)                                                       *)
 ScalingLaw == pc = "fdone" =>
-  LET pi1 == V([i \in Idx |-> Pi(i)])
-  IN /\ \A i \in EdgeIdx : /\ BREq(fu[i], BRMul(PScale, FluxOf(pi1, i, i + 1)))
-                           /\ BREq(fd[i], BRMul(PScale, FluxOf(pi1, i + 1, i)))
-                           /\ BREq(nu[i], BRMul(PScale, PosPart(FluxOf(pi1, i, i + 1), FluxOf(pi1, i + 1, i))))
-                           /\ BREq(nd[i], BRMul(PScale, PosPart(FluxOf(pi1, i + 1, i), FluxOf(pi1, i, i + 1))))
-     /\ (rp # None => LET d1 == Densities(pi1)
-                          t1 == SumOverStates(d1)
-                      IN \A i \in Idx : BREq(rp[i], BRDiv(d1[i], t1)))
+  /\ \A i \in EdgeIdx : /\ BREq(fu[i], BRMul(PScale, FluxOf(Pi, i, i + 1)))
+                        /\ BREq(fd[i], BRMul(PScale, FluxOf(Pi, i + 1, i)))
+                        /\ BREq(nu[i], BRMul(PScale, PosPart(FluxOf(Pi, i, i + 1), FluxOf(Pi, i + 1, i))))
+                        /\ BREq(nd[i], BRMul(PScale, PosPart(FluxOf(Pi, i + 1, i), FluxOf(Pi, i, i + 1))))
+  /\ \A i \in Idx : BREq(dens[i], BRMul(PScale, DensityOf(Pi, i)))
+  /\ (rp # None => \A i \in Idx : BREq(BRMul(rp[i], tot), dens[i]))
 
 (* ---- emission for replay -------------------------------------------------------------- *)
 EmitFInv == (EmitF /\ pc = "fdone") =>
